@@ -8,24 +8,59 @@ package kgo
 // noRecords(fs): no partition of any topic of any fetch holds a record.
 //@ spec noRecords(fs []Fetch) bool = forall a in 0..len(fs) :: forall b in 0..len(fs[a].Topics) :: forall c in 0..len(fs[a].Topics[b].Partitions) :: len(fs[a].Topics[b].Partitions[c].Records) == 0
 
+// Positions are ordered lexicographically: fetch, topic, partition, record. between(f, t0,p0,r0, t1,p1,r1): moving
+// from (t0,p0,r0) to (t1,p1,r1) inside fetch f skips no record - every partition strictly between holds none, the
+// start partition holds none at r0 or later, the end partition is entered at record 0 (or is the start partition,
+// at the same record) - and (t1,p1) is a position the loops can stand at (past-the-end positions have zeroed lower
+// indices). A fetch without records from a start position on is between(f, start, (len(f.Topics),0,0)).
+//@ spec lexLT(t0 int, p0 int, t1 int, p1 int) bool = t0 < t1 || (t0 == t1 && p0 < p1)
+//@ spec between(f Fetch, t0 int, p0 int, r0 int, t1 int, p1 int, r1 int) bool =
+//@   (lexLT(t0, p0, t1, p1) || (t0 == t1 && p0 == p1)) &&
+//@   (t0 == t1 && p0 == p1 ==> r1 == r0) && (lexLT(t0, p0, t1, p1) ==> r1 == 0) &&
+//@   0 <= t1 && (t1 > 0 ==> t1 <= len(f.Topics)) && 0 <= p1 && (p1 > 0 ==> (t1 < len(f.Topics) && p1 <= len(f.Topics[t1].Partitions))) &&
+//@   ((lexLT(t0, p0, t1, p1) && 0 <= t0 && t0 < len(f.Topics) && 0 <= p0 && p0 < len(f.Topics[t0].Partitions)) ==> len(f.Topics[t0].Partitions[p0].Records) <= r0) &&
+//@   (forall t in 0..len(f.Topics) :: forall p in 0..len(f.Topics[t].Partitions) ::
+//@     ((lexLT(t0, p0, t, p) && lexLT(t, p, t1, p1)) ==> len(f.Topics[t].Partitions[p].Records) == 0))
+// clean(F, C, k, start, cur): C = F[k:] are the remaining fetches; having dropped the first k fetches of F and
+// standing at cur in C[0], no record between the start position in F[0] and the current position was skipped.
+// (The current fetch is named through C, as the code does, the dropped ones through F.)
+//@ spec dropped(F []Fetch, k int, t0 int, p0 int, r0 int) bool =
+//@   k > 0 ==> (between(F[0], t0, p0, r0, len(F[0].Topics), 0, 0) && (forall a in 1..k :: between(F[a], 0, 0, 0, len(F[a].Topics), 0, 0)))
+//@ spec current(C []Fetch, k int, t0 int, p0 int, r0 int, ti int, pi int, ri int) bool =
+//@   len(C) > 0 ==> between(C[0], ite(k == 0, t0, 0), ite(k == 0, p0, 0), ite(k == 0, r0, 0), ti, pi, ri)
+//@ spec clean(F []Fetch, C []Fetch, k int, t0 int, p0 int, r0 int, ti int, pi int, ri int) bool =
+//@   0 <= k && k <= len(F) && len(C) == len(F) - k && dropped(F, k, t0, p0, r0) && current(C, k, t0, p0, r0, ti, pi, ri)
+
 // prepareNext moves the position (ti, pi, ri) of the first remaining fetch forward to the next existing record,
 // dropping exhausted fetches from the front: afterwards either no fetch remains, or the position denotes a record
 // (so Next's index expression is in range for every Fetches shape: empty fetches, topics without partitions,
-// partitions without records); the remaining fetches are a suffix of the previous ones.
+// partitions without records); the remaining fetches are a suffix of the previous ones; and NO RECORD lies between
+// the position it started from and the position it stops at (clean).
 //@ func (i *FetchesRecordIter) prepareNext()
 //@   prop C38
 //@   nopanic
 //@   requires i.ti >= 0 && i.pi >= 0 && i.ri >= 0
+//@   requires [a-start-or-a-partition] (i.ti == 0 && i.pi == 0 && i.ri == 0) || (len(i.fetches) > 0 && i.ti < len(i.fetches[0].Topics) && i.pi < len(i.fetches[0].Topics[i.ti].Partitions))
 //@   modifies i.fetches, i.ti, i.pi, i.ri
 //@   ensures [non-negative] i.ti >= 0 && i.pi >= 0 && i.ri >= 0
 //@   ensures [at-a-record-or-done] len(i.fetches) == 0 || (i.ti < len(i.fetches[0].Topics) && i.pi < len(i.fetches[0].Topics[i.ti].Partitions) && i.ri < len(i.fetches[0].Topics[i.ti].Partitions[i.pi].Records))
-//@   ensures [remaining-is-a-suffix] exists k in 0..old(len(i.fetches))+1 :: i.fetches == old(i.fetches)[k:]
-//@   loop 0 invariant i.ti >= 0 && i.pi >= 0 && i.ri >= 0 && (exists k in 0..old(len(i.fetches))+1 :: i.fetches == old(i.fetches)[k:])
-//@   loop 1 invariant i.ti >= 0 && i.pi >= 0 && i.ri >= 0 && len(i.fetches) > 0 && (exists k in 0..old(len(i.fetches))+1 :: i.fetches == old(i.fetches)[k:])
-//@   loop 2 invariant i.ti >= 0 && i.pi >= 0 && i.ri >= 0 && len(i.fetches) > 0 && i.ti < len(i.fetches[0].Topics) && (exists k in 0..old(len(i.fetches))+1 :: i.fetches == old(i.fetches)[k:])
+//@   ensures [remaining-is-a-suffix] i.fetches == old(i.fetches)[old(len(i.fetches)) - len(i.fetches):]
+//@   ensures [no-record-skipped] clean(old(i.fetches), i.fetches, old(len(i.fetches)) - len(i.fetches), old(i.ti), old(i.pi), old(i.ri), i.ti, i.pi, i.ri)
+//@   loop 0 invariant i.ti >= 0 && i.pi >= 0 && i.ri >= 0 && len(i.fetches) <= old(len(i.fetches)) && i.fetches == old(i.fetches)[old(len(i.fetches)) - len(i.fetches):]
+//@   loop 0 invariant dropped(old(i.fetches), old(len(i.fetches)) - len(i.fetches), old(i.ti), old(i.pi), old(i.ri))
+//@   loop 0 invariant current(i.fetches, old(len(i.fetches)) - len(i.fetches), old(i.ti), old(i.pi), old(i.ri), i.ti, i.pi, i.ri)
+//@   loop 1 invariant i.ti >= 0 && i.pi >= 0 && i.ri >= 0 && len(i.fetches) > 0 && len(i.fetches) <= old(len(i.fetches)) && i.fetches == old(i.fetches)[old(len(i.fetches)) - len(i.fetches):]
+//@   loop 1 invariant dropped(old(i.fetches), old(len(i.fetches)) - len(i.fetches), old(i.ti), old(i.pi), old(i.ri))
+//@   loop 1 invariant current(i.fetches, old(len(i.fetches)) - len(i.fetches), old(i.ti), old(i.pi), old(i.ri), i.ti, i.pi, i.ri)
+//@   loop 2 invariant i.ti >= 0 && i.pi >= 0 && i.ri >= 0 && len(i.fetches) > 0 && i.ti < len(i.fetches[0].Topics) && len(i.fetches) <= old(len(i.fetches)) && i.fetches == old(i.fetches)[old(len(i.fetches)) - len(i.fetches):]
+//@   loop 1 invariant fetch0 == &i.fetches[0]
+//@   loop 2 invariant fetch0 == &i.fetches[0] && topic == &i.fetches[0].Topics[i.ti]
+//@   loop 2 invariant dropped(old(i.fetches), old(len(i.fetches)) - len(i.fetches), old(i.ti), old(i.pi), old(i.ri))
+//@   loop 2 invariant current(i.fetches, old(len(i.fetches)) - len(i.fetches), old(i.ti), old(i.pi), old(i.ri), i.ti, i.pi, i.ri)
 
-// Next returns the record at the current position and advances; it never indexes out of range when the iterator
-// is at a record (which prepareNext establishes and Done() == false guarantees).
+// Next returns the record at the current position and advances to the next record: it never indexes out of range
+// when the iterator is at a record (which prepareNext establishes and Done() == false guarantees), and no record
+// lies between the one after the returned record and the new position.
 //@ func (i *FetchesRecordIter) Next() (r *Record)
 //@   prop C38
 //@   nopanic
@@ -34,6 +69,8 @@ package kgo
 //@   modifies i.fetches, i.ti, i.pi, i.ri
 //@   ensures [returns-the-current-record] r == old(i.fetches[0].Topics[i.ti].Partitions[i.pi].Records[i.ri])
 //@   ensures [at-a-record-or-done] len(i.fetches) == 0 || (i.ti >= 0 && i.pi >= 0 && i.ri >= 0 && i.ti < len(i.fetches[0].Topics) && i.pi < len(i.fetches[0].Topics[i.ti].Partitions) && i.ri < len(i.fetches[0].Topics[i.ti].Partitions[i.pi].Records))
+//@   ensures [remaining-is-a-suffix] i.fetches == old(i.fetches)[old(len(i.fetches)) - len(i.fetches):]
+//@   ensures [next-record-not-skipped] clean(old(i.fetches), i.fetches, old(len(i.fetches)) - len(i.fetches), old(i.ti), old(i.pi), old(i.ri) + 1, i.ti, i.pi, i.ri)
 
 //@ func (i *FetchesRecordIter) Done() (d bool)
 //@   prop C38
@@ -45,6 +82,7 @@ package kgo
 //@ func (fs Fetches) RecordIter() (it *FetchesRecordIter)
 //@   prop C38
 //@   nopanic
+//@   ensures [first-record-not-skipped] len(it.fetches) <= len(fs) && it.fetches == fs[len(fs) - len(it.fetches):] && clean(fs, it.fetches, len(fs) - len(it.fetches), 0, 0, 0, it.ti, it.pi, it.ri)
 //@   ensures [starts-at-a-record-or-done] len(it.fetches) == 0 || (it.ti >= 0 && it.pi >= 0 && it.ri >= 0 && it.ti < len(it.fetches[0].Topics) && it.pi < len(it.fetches[0].Topics[it.ti].Partitions) && it.ri < len(it.fetches[0].Topics[it.ti].Partitions[it.pi].Records))
 
 // Empty is true exactly when no partition holds a record.
@@ -82,3 +120,15 @@ package kgo
 //@   loop 0 invariant forall a in 0..rangeindex+1 :: forall b in 0..len(f.Topics[a].Partitions) :: (f.Topics[a].Partitions[b].Err == nil && len(f.Topics[a].Partitions[b].Records) == 0)
 //@   loop 1 invariant 0 <= i && i < len(f.Topics) && (forall a in 0..i :: forall b in 0..len(f.Topics[a].Partitions) :: (f.Topics[a].Partitions[b].Err == nil && len(f.Topics[a].Partitions[b].Records) == 0))
 //@   loop 1 invariant forall b in 0..rangeindex+1 :: (f.Topics[i].Partitions[b].Err == nil && len(f.Topics[i].Partitions[b].Records) == 0)
+
+// Errors lists what EachError visits, nothing else: every return passes through EachError over the whole Fetches
+// and hands back the list its callback built; the callback appends exactly the (topic, partition, error) it is given.
+//@ func (fs Fetches) Errors() (r []FetchError)
+//@   prop C38
+//@   site call EachError#0 assert [over-all-fetches] arg0 == fs
+//@   ensures [listed-through-EachError] reached($EachError0) && r == errs
+//@ func (fs Fetches) Errors$1(t string, p int32, err error)
+//@   prop C38
+//@   nopanic
+//@   ensures [appends-what-it-is-given] len(*errs) == old(len(*errs)) + 1 && (*errs)[len(*errs)-1].Topic == t && (*errs)[len(*errs)-1].Partition == p && (*errs)[len(*errs)-1].Err == err
+//@   ensures [keeps-the-earlier-ones] forall k in 0..old(len(*errs)) :: (*errs)[k] == old((*errs)[k])
